@@ -29,7 +29,9 @@ class ScopeProgram:
                 "echo({M0} + {M1});", "echo({M2}.viaThis({M1}));", "{M0} = {M0} + 1;", "echo({M2}.n); echo({M2}.t);",
                 "{ PD pd = new PD({M0}, {M1}); echo(pd.n); echo(pd.t); echo(pd.z); }", "{ PB pb = new PD({M1}, 3); echo(pb.n + pb.t); }",
                 "{ P q = new P({M1}, {M0}); echo(q.addt(1)); }", "{ P dq = new P({M1}, {M0}); destroy dq; echo({M0}); }",
-                "{M2} = new P({M0}, {M1}); echo({M2}.n);", "echo({M2}.at({M0})); echo({MA}[1]);", "echo({M2}.at(1) + {MA}[0]);", "{ P rq = new P({M0}, 2); rq = new P(3, {M1}); echo(rq.t); }"]
+                "{M2} = new P({M0}, {M1}); echo({M2}.n);", "echo({M2}.at({M0})); echo({MA}[1]);", "echo({M2}.at(1) + {MA}[0]);", "{ P rq = new P({M0}, 2); rq = new P(3, {M1}); echo(rq.t); }",
+                "echo({M2}.bump()); echo({M0}); echo({M1});", "echo(SN.inc()); echo({M0}); echo({M1}); echo(SN.get());",
+                "{M2}.bump(); echo(helper({M2}, {M1})); echo({M2}.bump());"]
         r.shuffle(body)
         self.body = body[:r.randrange(4, len(body) + 1)] + ["echo({M0}); echo({M1}); echo({M2}.n); echo({M2}.t);"]
 
@@ -49,12 +51,13 @@ class ScopeProgram:
             "    public function viaThis(int {D0}) -> int { int {D1} = {D0} * 3; this.n = this.n + {D1}; return this.n; }",
             "    public int[] d = {%d, %d, %d};" % (c[0] + 30, c[1] + 40, c[2] + 50),
             "    public function at(int {C0}) -> int { return d[{C0} % 3] + d[0]; }",
+            "    public function bump() -> int { n++; t--; return n * 10 + t; }",
             "    public destructor() -> void { echo(n * 1000 + t); }",
             "}",
             "class PB { public int n = %d; public int t = %d; public constructor(int {J0}) -> PB { int {J1} = {J0} + 1; n = n + {J1}; t = t + n; return this; } }" % (c[3], c[4]),
             "class PD extends PB { public int z = 1; public constructor(int {H0}, int {H1}) -> PD { super({H0} + {H1}); z = z + {H0}; return this; } }",
             "class SG<T> { public static int k = %d; public static int w = k * 2 + 1; public static int v = w + k; public constructor() -> SG<T> = default; public function get() -> int { return w * 100 + v; } }" % c[4],
-            "class SN { public static int x = %d; public static int k = x + 5; public constructor() -> SN = default; public static function get() -> int { return k * 3 + x; } }" % c[5],
+            "class SN { public static int x = %d; public static int k = x + 5; public constructor() -> SN = default; public static function get() -> int { return k * 3 + x; } public static function inc() -> int { x++; k--; return x * 7 + k; } }" % c[5],
             "function early(int {F0}) -> int { for (int {F1} = 0; {F1} < 4; {F1} = {F1} + 1) { if ({F1} == 2) { return {F0} + {F1}; } } return 0; }",
             "function helper(P {E0}, int {E1}) -> int { int[] {EA} = {7, 8, 9}; int {E2} = {E1} + 2 + {EA}[1] - 8; echo({E0}.at({E1})); {E0}.setn({E2}); { SG<SN> gs = new SG<SN>(); {E2} = {E2} + gs.get() - gs.get(); } return {E0}.addt({E1}) + {E2}; }",
             "function main() -> void {",
